@@ -96,6 +96,11 @@ jcmd_jwe_fmt(int argc, char *argv[])
     }
 
     if (opt.compact) {
+        if (json_array_size(json_object_get(opt.obj, "recipients")) > 1) {
+            fprintf(stderr, "Input JWE cannot be converted to compact.\n");
+            return EXIT_FAILURE;
+        }
+
         for (size_t i = 0; strcmp(opt.fields[i].name, "ciphertext") != 0; i++) {
             const jcmd_field_t *f = &opt.fields[i];
             const char *k = f->name;
